@@ -233,7 +233,7 @@ fn run_case(ctx: &mut Ctx, idx: u64) {
             let d = json!({"schema": schema, "style": style.name, "vocab": v.name, "instance_text": s, "failed_at_token": pos, "what": what,
                 "accepted_prefix": bytes_dbg(&bytes[..consumed.min(bytes.len())]), "rejected_token_bytes": toks.get(pos).map(|&t| bytes_dbg(&v.words[t as usize])), "validate_tokens": vt, "n_tokens": toks.len()});
             let rp = ctx.replay(idx);
-            let kind = classify(&s, &bytes[..consumed.min(bytes.len())], what);
+            let kind = classify(&schema, &s, &bytes[..consumed.min(bytes.len())], what);
             ctx.rep.violation(&kind, &g.tags, d, rp);
             if kind == "raw_del_character_in_string_rejected" {
                 continue; // keep exploring this schema with other instances
@@ -265,13 +265,104 @@ fn normalise_numbers(v: &Value) -> Value {
     }
 }
 
+/// every sub-schema that carries numeric keywords, reduced to exactly those keywords
+fn numeric_subschemas(s: &Value, out: &mut Vec<Value>) {
+    match s {
+        Value::Object(o) => {
+            let keys = ["minimum", "maximum", "exclusiveMinimum", "exclusiveMaximum", "multipleOf"];
+            if keys.iter().any(|k| o.get(*k).is_some_and(|v| v.is_number())) {
+                let mut r = serde_json::Map::new();
+                let ty = if o.get("type").and_then(|t| t.as_str()) == Some("integer") { "integer" } else { "number" };
+                r.insert("type".into(), json!(ty));
+                for k in keys {
+                    if let Some(v) = o.get(k).filter(|v| v.is_number()) {
+                        r.insert(k.to_string(), v.clone());
+                    }
+                }
+                out.push(Value::Object(r));
+            }
+            for v in o.values() {
+                numeric_subschemas(v, out);
+            }
+        }
+        Value::Array(a) => a.iter().for_each(|v| numeric_subschemas(v, out)),
+        _ => {}
+    }
+}
+
+/// The rejection is the numeric-literal defect already recorded for C08 when, in isolation, the number
+/// sub-schema (numeric keywords only) also rejects the literal although exact arithmetic admits it, and
+/// the literal has the recorded shape.
+fn classify_number(schema: &Value, text: &str, at: usize) -> Option<String> {
+    let b = text.as_bytes();
+    let numch = |c: u8| c.is_ascii_digit() || matches!(c, b'.' | b'-' | b'+' | b'e' | b'E');
+    let mut lo = at.min(b.len());
+    while lo > 0 && numch(b[lo - 1]) {
+        lo -= 1;
+    }
+    let mut hi = at.min(b.len());
+    while hi < b.len() && numch(b[hi]) {
+        hi += 1;
+    }
+    let lit = &text[lo..hi];
+    if lit.is_empty() || !lit.bytes().any(|c| c.is_ascii_digit()) || lit.contains(['e', 'E']) {
+        return None;
+    }
+    let frac_len = |t: &str| t.split('.').nth(1).map_or(0, |f| f.len());
+    let mut subs = vec![];
+    numeric_subschemas(schema, &mut subs);
+    let v1 = crate::vocab::v1(false);
+    let f1 = factory_noslice(&v1).ok()?;
+    for sub in subs {
+        let judge = Judge::new(&sub);
+        if !matches!(judge.judge_text(lit.as_bytes()), Judgement::Valid) {
+            continue;
+        }
+        let g = GCase::json("c07_num", &sub.to_string());
+        let Ok(m0) = matcher(&f1, &g) else { continue };
+        if m0.is_error() {
+            continue;
+        }
+        let mut m = m0;
+        let mut ok = true;
+        for &c in lit.as_bytes() {
+            if m.is_stopped() || m.consume_token(c as u32).is_err() {
+                ok = false;
+                break;
+            }
+        }
+        let accepted = ok && (if m.is_stopped() { m.stop_reason().is_ok() } else { m.is_accepting().unwrap_or(false) });
+        if accepted {
+            continue;
+        }
+        // isolated sub-schema rejects a literal that exact arithmetic admits: which recorded shape?
+        let o = sub.as_object().unwrap();
+        for k in ["minimum", "maximum", "exclusiveMinimum", "exclusiveMaximum"] {
+            if let Some(bt) = o.get(k).map(|v| v.to_string()) {
+                if lit.contains('.') && bt.len() > lit.len() && bt.starts_with(lit) {
+                    return Some("truncated_bound_literal_rejected".into());
+                }
+            }
+        }
+        if let Some(mt) = o.get("multipleOf").map(|v| v.to_string()) {
+            if frac_len(lit) >= 1 && frac_len(lit) < frac_len(&mt) {
+                return Some("short_fraction_under_multipleof_rejected".into());
+            }
+        }
+    }
+    None
+}
+
 /// failure family by verified pattern
-fn classify(text: &str, accepted_prefix: &[u8], what: &str) -> String {
+fn classify(schema: &Value, text: &str, accepted_prefix: &[u8], what: &str) -> String {
     let rest = &text.as_bytes()[accepted_prefix.len()..];
     if rest.first() == Some(&0x7F) {
         return "raw_del_character_in_string_rejected".into();
     }
     let _ = what;
+    if let Some(k) = classify_number(schema, text, accepted_prefix.len()) {
+        return k;
+    }
     "valid_canonical_instance_rejected".into()
 }
 
